@@ -6,6 +6,7 @@
   (trusted); for kingdon's own RationalPolynomial symbols it is proved (C06/C17).
 -/
 import Kingdon.Lemmas.Naturality
+import Kingdon.Lemmas.MiscLemmas
 namespace Kingdon.C12
 open Finsupp
 variable {α β : Type} [CommRing α] [CommRing β] (φ : α →+* β)
@@ -29,5 +30,17 @@ theorem grade_commutes (c : Cfg) (gs : List Nat) (x : MV α) :
 /-- on denotations: substitution acts coefficient-wise -/
 theorem denotation_commutes (x : MV α) : den (mapV φ x) = Finsupp.mapRange φ (map_zero φ) (den x) :=
   den_mapV_hom φ x
+
+/-- calling a symbolic multivector: keyword arguments bind by name (whatever the order in which they are passed) ... -/
+theorem keyword_arguments_bind_by_name {V : Type} (syms : List String) (kwargs : List (String × V))
+    (hn : syms.Nodup) (hp : (kwargs.map (·.1)).Perm syms) :
+    ∀ kv ∈ kwargs, kv ∈ Bind.bindKeyword syms kwargs := keyword_binds_by_name syms kwargs hn hp
+
+/-- ... and positional arguments bind to the free symbols in name order -/
+theorem positional_arguments_bind_in_name_order {V : Type} (syms : List String) (args : List V)
+    (hl : args.length = syms.length) :
+    (Bind.bindPositional syms args).map (·.1) = Bind.params syms ∧ (Bind.bindPositional syms args).map (·.2) = args ∧
+    (Bind.params syms).Pairwise (fun a b => ¬ b < a) ∧ (Bind.params syms).Perm syms :=
+  positional_binds_in_name_order syms args hl
 
 end Kingdon.C12
